@@ -199,7 +199,14 @@ def case_map(rec, width, keys, kind, check_entries=True):
             if r.hash != marker.hash or tail != 5 or s.remaining_refs or s.remaining_bits:
                 raise AssertionError('the reference / bits that follow two dictionaries are not what was stored')
             return d1
-        entries += [('parse:bit-string-keys', bitkeys), ('two-dicts-then-ref', two_dicts)]
+        def reserialize():
+            # a dictionary object obtained from a cell is a dictionary: serialising it gives the cell back (values are the slices it read)
+            h2 = HashMap.from_cell(cell, width)
+            c2 = h2.serialize()
+            if c2 is None or c2.hash != cell.hash or h2.serialize().hash != cell.hash:
+                raise AssertionError('HashMap.from_cell(cell).serialize() is not the cell it was read from')
+            return want
+        entries += [('parse:bit-string-keys', bitkeys), ('two-dicts-then-ref', two_dicts), ('from_cell:reserialize', reserialize)]
         if width <= 257:
             entries.append(('parse:signed-keys', signedkeys))
     for name, thunk in entries:
